@@ -9,6 +9,8 @@ import Glom.Model.C09Env
           "spec_built":Spec|null, "target_built":V|null,     -- set / frozenset members in the
                                                               -- iteration order CPython gave them
           "impl":Obs, "impl_verify":Obs, "impl_matches":bool|null, "impl_after":V}
+         | {"spec":…, "default":…, "targets":[V…], "spec_built":…, "targets_built":[V…],
+            "impl_seq":[Obs…]}        -- one Match object, consecutive glom calls
 -/
 namespace Glom.C09.Driver
 open Lean Glom Glom.MV Glom.C10 Glom.C10.Driver Glom.C09
@@ -30,12 +32,37 @@ def run (j : Json) : Except String Json := do
     | .ok s => pure s
     | .error _ => j.getObjVal? "spec")
   let targetJ ← (match j.getObjVal? "target_built" with
-    | .ok .null => j.getObjVal? "target"
+    | .ok .null => (match j.getObjVal? "target" with | .ok v => pure v | .error _ => pure Json.null)
     | .ok s => pure s
-    | .error _ => j.getObjVal? "target")
+    | .error _ => (match j.getObjVal? "target" with | .ok v => pure v | .error _ => pure Json.null))
   let p ← specOfJson specJ
-  let t ← vOfJson targetJ
   let d ← optField j "default" argOfJson
+  -- the same Match OBJECT evaluated on several targets, one call after the other: every call
+  -- must decide its own target as if it were the only one (per-target reference)
+  if let .ok (.arr ts) := j.getObjVal? "targets_built" then
+    let targets ← ts.toList.mapM vOfJson
+    let obss ← (← arrOf (← j.getObjVal? "impl_seq")).mapM obsOfJson
+    let ct := genEnv.cls
+    match ctorErr p with
+    | some e =>
+      let ok := obss == [Obs.ctor e.cls]
+      return Json.mkObj [("agree", ok), ("holds", ok), ("model", obsToJson (Obs.ctor e.cls)),
+        ("branch", Json.str s!"seq-{specHead p}:ctor-{e.cls}"), ("wf", WF genEnv && WF9 genEnv facts9)]
+    | none =>
+      if obss.length != targets.length then throw "impl_seq does not match targets"
+      let rs := (targets.zip obss).map (fun q =>
+        let den := denote ct (.matchS p d) q.1
+        let m := observe genEnv (matchGlom genEnv p d q.1)
+        (obsSat den.1 den.2 q.2 &&
+          (!(pureP p && d.isNone && wfV q.1) || (match q.2 with | .ok v _ => valEq v q.1 | _ => true)),
+         obsAgree m q.2, m, verdictTag den.1))
+      let firstBad := (rs.zipIdx.find? (fun r => !r.1.1)).map (·.2)
+      return Json.mkObj [("agree", rs.all (·.2.1)), ("holds", rs.all (·.1)),
+        ("model", Json.arr (rs.map (fun r => obsToJson r.2.2.1)).toArray),
+        ("branch", Json.str s!"seq-{specHead p}:{match rs.getLast? with | some r => r.2.2.2 | none => "empty"}"),
+        ("first_failing_call", match firstBad with | some i => toJson i | none => Json.null),
+        ("wf", WF genEnv && WF9 genEnv facts9)]
+  let t ← vOfJson targetJ
   let main ← obsOfJson (← j.getObjVal? "impl")
   let ct := genEnv.cls
   match ctorErr p with
